@@ -15,7 +15,7 @@
 
 //! `trait MaxEncodedLen` bounds the maximum encoded length of items.
 
-use crate::{alloc::boxed::Box, Compact, Encode};
+use crate::{alloc::boxed::Box, Compact, CompactAs, Encode};
 use core::{
 	marker::PhantomData,
 	mem,
@@ -94,6 +94,17 @@ impl_compact!(
 
 // impl_for_tuples for values 19 and higher fails because that's where the WrapperTypeEncode impl
 // stops.
+impl<T> MaxEncodedLen for Compact<T>
+where
+	T: CompactAs,
+	Compact<T::As>: MaxEncodedLen,
+	Compact<T>: Encode,
+{
+	fn max_encoded_len() -> usize {
+		Compact::<T::As>::max_encoded_len()
+	}
+}
+
 #[impl_for_tuples(18)]
 impl MaxEncodedLen for Tuple {
 	fn max_encoded_len() -> usize {
